@@ -1898,6 +1898,13 @@ class UserSpaceImpl(*_user_space_impl_base):
                     selfdict[name] = UserCellsImpl(
                         space=self, name=name, formula=None,
                         is_derived=True)
+                    if name in self.model.global_refs:
+                        # As for a derived reference below: the derived
+                        # cells hides the global reference of the same
+                        # name, which may have been read through this
+                        # space
+                        self.model.clear_attr_referrers(
+                            self.model.global_refs[name])
 
                 elif attr == "own_refs":
                     selfdict[name] = ReferenceImpl(
